@@ -293,6 +293,11 @@ GEO_TWEAKS = [
     ('Production Well Diameter', ['0.2 m', '20 cm']),
     ('Maximum Temperature', ['752 degF']),
     ('Production Flow Rate per Well', ['50 kg/sec\nReservoir Depth, 3.2 km']),
+    # an overpressured reservoir: one more section and one more table in the report
+    ('Overpressure Percentage', ['155.0\nOverpressure Depletion Rate, 10.0\nInjection Reservoir Temperature, 101.1\nInjection Reservoir Depth, 1001.1\n'
+                                 'Injection Reservoir Inflation Rate, 202.2',
+                                 '130.0\nOverpressure Depletion Rate, 5.0\nInjection Reservoir Temperature, 80\nInjection Reservoir Depth, 1500\n'
+                                 'Injection Reservoir Inflation Rate, 100']),
 ]
 
 HIP_TWEAKS = [
